@@ -1,10 +1,12 @@
 from engine import Query
-import json
 META = {}
-B = {'Next': 14, 'h_render': 100, 'Copy': 20, 'IsEqual': 8, 'Dispose': 3, 'parse|parse.*|checkLoopVariable|getOperation|isExpression': 40, 'vf_mem.*': 200, 'sym_tree': 5,
-     'render.*|getValue|evaluate.*|GetExpressionValue|isEqual': 4, 'Write': 40, 'EscapeHTMLSpecialChars': 16}
 def queries(tier):
     qs = []
-    for i, t in enumerate(['{var:a}', '<loop value="v">{var:v}</loop>', '<if case="a">x</if>', '{math:1+a}', '<if case="1"><if case="1"><loop value="v">{var:v}</loop></if></if>']):
-        qs.append(Query('t%d' % i, 'C01_tpl.cpp', 'h_render', {'TPL': json.dumps(t)}, bounds=B, default_unwind=4, timeout=600, mem_gb=16, default_rec=3))
+    for L in (2, 3, 4):
+        for tl in (0, 1):
+            B = {'Next': L + 1, 'h_small|vf_buf.*': L + 2, 'Copy': 12, 'IsEqual': 8, 'Dispose': 3, 'parse|parse.*|checkLoopVariable|getOperation|isExpression': L + 2, 'vf_mem.*': 60, 'sym_tree': 5,
+                 'render.*|getValue|evaluate.*|GetExpressionValue|isEqual': 3, 'Write': L + 2, 'EscapeHTMLSpecialChars': 8}
+            d = {'L': L}
+            if tl: d['TAGLESS'] = 1
+            qs.append(Query('s%d_%d' % (L, tl), 'C01_small.cpp', 'h_small', d, bounds=B, default_unwind=3, timeout=600, mem_gb=16, default_rec=2))
     return qs
